@@ -19,7 +19,7 @@ _NEIGHBORS: dict = {}
 FAMILY_CODE = {
     'ipv4 unicast': (1, 1), 'ipv4 multicast': (1, 2), 'ipv4 nlri-mpls': (1, 4), 'ipv4 mpls-vpn': (1, 128),
     'ipv6 unicast': (2, 1), 'ipv6 multicast': (2, 2), 'ipv6 nlri-mpls': (2, 4), 'ipv6 mpls-vpn': (2, 128),
-    'ipv4 flow': (1, 133), 'ipv6 flow': (2, 133), 'l2vpn vpls': (25, 65), 'l2vpn evpn': (25, 70),
+    'ipv4 flow': (1, 133), 'ipv6 flow': (2, 133), 'l2vpn vpls': (25, 65), 'l2vpn evpn': (25, 70), 'ipv4 sr-policy': (1, 73), 'ipv6 sr-policy': (2, 73),
 }
 
 
